@@ -119,6 +119,9 @@ def check_batch(o):
     templates = {"PCAModel(masked images)": templ_m, "PCAModel(images)": templ_i}
     for t, templ in templates.items():
         models.append((t, PCAModel([templ.from_vector(x) for x in X], centre=centre)))
+    # samples handed over as a one-shot iterator with their count (the documented alternative to a list)
+    models.append(("PCAModel(masked images, iterator + n_samples)", PCAModel((templ_m.from_vector(x) for x in X), centre=centre, n_samples=len(X))))
+    templates["PCAModel(masked images, iterator + n_samples)"] = templ_m
     # the decomposition is scale-equivariant: the same data in other units (x 1e-6, x 1e4) has the same number of components,
     # the same subspaces and eigenvalues scaled by the square of the unit (both code paths)
     base = PCAVectorModel(X.copy(), centre=centre, inplace=False)
